@@ -1,7 +1,7 @@
 (* C04 — a confirmed request ends in exactly one outcome, in bounded time, no residue.
    Property theorems only; the model is Bac.Ssm (ClientSSM / ServerSSM transcribed from appservice.py with the
    fix: commits of known_findings/C04.json applied), proofs in Bac.SsmC04a / Bac.SsmC04 / Bac.SsmC05. *)
-From Bac Require Import Base PyRt Ssm SsmFacts SsmC04a SsmC04 SsmC05 SsmWorld.
+From Bac Require Import Base PyRt Ssm SsmFacts SsmC04a SsmC04 SsmC04t SsmC05 SsmWorld.
 Open Scope Z_scope.
 
 (* over any sequence of inbound frames and time-outs, in any order and at any instants, a client transaction hands
@@ -42,6 +42,18 @@ Theorem C04_indication_post : forall a st, pre st -> post st (c_indication a st)
 Proof. exact c_indication_post. Qed.
 Print Assumptions C04_indication_post.
 
+(* bounded time: a time-out that leaves the transaction in the table (and did not raise) strictly lowers
+   budget = (retries - retryCount) * (retries + 2) + (retries + 1 - segmentRetryCount) and keeps both counters in 0..retries *)
+Theorem C04_timeout_measure : forall st, h_live st = true -> terminal (h_s st) = false -> cnt_ok (h_s st) ->
+  let r := c_process_task st in
+  snd r = None -> h_live (fst r) = true -> budget (h_s (fst r)) < budget (h_s st) /\ cnt_ok (h_s (fst r)).
+Proof. exact timeout_budget. Qed.
+Print Assumptions C04_timeout_measure.
+
+Theorem C04_budget_nonneg : forall s, cnt_ok s -> 0 <= budget s.
+Proof. exact budget_nonneg. Qed.
+Print Assumptions C04_budget_nonneg.
+
 (* the handlers can raise: a retransmitted ConfirmedRequest that meets a server sending a segmented response *)
 Theorem C04_no_exn_refuted : exists s a, s_state s = SEGMENTED_RESPONSE /\ a_type a = 0 /\
   snd (s_indication a (mkH s [] 1 0 true)) = Some RuntimeErr.
@@ -62,6 +74,8 @@ Print Assumptions C04_reserved_maxresp_no_residue.
 (* non-vacuity: a fresh client transaction is ready; a run with an outcome exists *)
 Example C04_ready_example : c_ready fresh_client.
 Proof. vm_compute. repeat split. Qed.
+Example C04_budget_example : cnt_ok fresh_client /\ budget fresh_client = 19.
+Proof. vm_compute. repeat split; discriminate. Qed.
 Example C04_life_example :
   ntoapp (c_life (mk_creq false false false (-1) (-1) (-1) (-1) 1 12 [1; 2; 3])
                  fresh_client 0 0
